@@ -177,6 +177,7 @@ def run(model, rep):
     _c13.rule_time(model, _Renamed(rep, {"C13.b": "C14.c-time-to-counter"}, "C14.x-"))
     # ... and the candidate a token is compared with is produced by the RFC 4226 kernel from that counter
     _c13.rule_kernel(model, _Renamed(rep, {"C13.a": "C14.d-token-kernel"}, "C14.x-"))
+    _c13.rule_digest_size_agreement(model, rep, "C14.d-token-kernel")
     # ... with the key prepared as RFC 2104 says (a key of exactly one block is used as it is)
     from . import prim as _prim
     _prim.rule_hmac(model, rep, "C14.f-hmac-key-prep")
